@@ -62,6 +62,35 @@ def importance_jobs(plan, opts, graph, seed):
         plan.add_job(rng.choice(["tensors", "components"]), opts, hist, rng.choice([1, 2, 3]), rng.random() < 0.5, True, imp, label="importance overrides")
 
 
+def drivers(run, plan, opts, seed, tier):
+    """Freezing through load_data and through the time-series driver."""
+    import json as _json
+    import random
+    from ..cache_engine import Engine
+    from .. import overtime_engine as O
+    from . import c14
+    rng = random.Random(seed)
+    keys = list(plan.jobs)
+    rng.shuffle(keys)
+    n = 0
+    engines = {}
+    for k in keys[: (60 if tier == "quick" else 600)]:
+        eng = engines.setdefault(k[0], Engine(k[0], opts, seed))
+        out = eng.replay(list(k[2]), k[3], k[4], True, loader="load_data")
+        n += 1
+        for pid, sig, what, rep in out["findings"]:
+            if pid == "C03":
+                run.violation(dict(sig, via="load_data"), what + " [inputs loaded with load_data]", rep)
+    run.info["load_data_replays"] = n
+    res = O.pmap(O.check_behaviour, c14.driver_jobs())
+    for fnds in res:
+        for pid, sig, what, rep in fnds:
+            if pid == "C03":
+                run.violation(sig, what, rep)
+    run.info["over_time_driver_runs"] = len(res)
+    run.traces += n + len(res)
+
+
 def run(tier, seed):
     run = Run("C03", tier, seed)
     opts = {}
@@ -72,6 +101,7 @@ def run(tier, seed):
     liveness(run, graph)
     importance_jobs(plan, opts, graph, seed)
     CC.execute(run, "C03", graph, plan, opts, seed, max_traces=500 if tier == "quick" else 4000)
+    drivers(run, plan, opts, seed, tier)
     CC.binding_demo(run, graph, seed)
     run.rule = ("behaviours of AurelCache (safety layer with arbitrary eviction on a dependency-closed sub-graph; the code's policy on the graph "
                 "extracted from the working tree with clear_cache_every_nbr_calc in {1,2,3} and a memory threshold below the inputs; freeze_data "
